@@ -2,7 +2,7 @@
    Print Assumptions. *)
 From Coq Require Import ZArith QArith List Bool.
 From Centro Require Import Base.VecC13 Model.Circle Model.CircleVec Model.Feret Model.HullFill Spec.MecSpec Spec.ChrystalHyp Spec.FeretSpec Spec.FeretLower Spec.FillSpec
-  Proofs.MecProofs Proofs.CircleProofs Proofs.ChrystalFull Proofs.ChrystalHull Spec.HullSpec Proofs.CircleVecProofs Proofs.CircleVecStep Proofs.FeretProofs Proofs.FeretLowerProofs Proofs.SweepProofs Spec.CalipersHyp Spec.FeretBrute Proofs.CalipersMax Proofs.CalipersMin Proofs.CalipersFull Proofs.SweepFloat Proofs.FillProofs Proofs.FillEdgeProofs Proofs.FillModelProofs.
+  Proofs.MecProofs Proofs.CircleProofs Proofs.ChrystalFull Proofs.ChrystalHull Spec.HullSpec Proofs.CircleVecProofs Proofs.CircleVecStep Proofs.FeretProofs Proofs.FeretLowerProofs Proofs.SweepProofs Spec.CalipersHyp Spec.FeretBrute Proofs.CalipersMax Proofs.CalipersMin Proofs.CalipersFull Proofs.CalipersHull Proofs.SweepFloat Proofs.FillProofs Proofs.FillEdgeProofs Proofs.FillModelProofs.
 
 (* Full.  Soundness of the certificate checker that is run on the exact circle reconstructed from
    the implementation's output: the circle contains every pixel centre of S and no circle
@@ -230,6 +230,16 @@ Theorem C14_calipers_eq_bruteforce : forall h mx mq,
   exists bq, bf_min h = Some bq /\ (0 < snd mq)%Z /\ (0 < snd bq)%Z /\ (fst mq * snd bq = fst bq * snd mq)%Z.
 Proof. exact calipers_eq_bruteforce. Qed.
 Print Assumptions C14_calipers_eq_bruteforce.
+
+(* Full (C14 x C02).  Every hull polygon with at least three vertices that meets C02's specification
+   is strictly convex in the sense of strict_convex_ok (C02 gives every pixel weakly on the inner
+   side of every edge; the vertices are in general position by C14_hull_satisfies_chrystal_hyp's
+   argument, so the other vertices are strictly inside), hence the calipers theorem holds for every
+   hull convex_hull can hand to feret_diameter. *)
+Theorem C14_hull_is_strictly_convex : forall PS V,
+  HullSpec PS V -> (3 <= length V)%nat -> strict_convex_ok V = true.
+Proof. exact hull_strictly_convex. Qed.
+Print Assumptions C14_hull_is_strictly_convex.
 
 (* Full.  One- and two-vertex hulls (and the empty one): the sweep is not entered; the maximum is the
    pairwise maximum and the minimum is 0. *)
